@@ -221,13 +221,13 @@ func init() {
 			s := tm(a[0])
 			r, size := UF(name+".rune", SInt, s), UF(name+".size", SInt, s)
 			if !s.hasBound {
-				ex.fact(nil, And(Le(IntT(0), size), Le(size, IntT(4)), Le(size, ex.slen(s)), Eq(Eq(size, IntT(0)), Eq(ex.slen(s), IntT(0))), Le(IntT(0), r)))
+				ex.fact(nil, And(Le(IntT(0), size), Le(size, IntT(4)), Le(size, ex.slen(s)), Eq(Eq(size, IntT(0)), Eq(ex.slen(s), IntT(0))), Le(IntT(0), r), Implies(Eq(size, IntT(0)), Eq(r, IntT(65533)))))
 			}
 			return []Val{r, size}
 		}
 	}
-	reg("unicode/utf8.DecodeRuneInString", "(rune, size) are uninterpreted functions of the string with 0 <= size <= min(4, len(s)), size == 0 iff s is empty, rune >= 0", decode("utf8.decode"))
-	reg("unicode/utf8.DecodeLastRuneInString", "(rune, size) are uninterpreted functions of the string with 0 <= size <= min(4, len(s)), size == 0 iff s is empty, rune >= 0", decode("utf8.decodeLast"))
+	reg("unicode/utf8.DecodeRuneInString", "(rune, size) are uninterpreted functions of the string with 0 <= size <= min(4, len(s)), size == 0 iff s is empty (then rune == RuneError), rune >= 0", decode("utf8.decode"))
+	reg("unicode/utf8.DecodeLastRuneInString", "(rune, size) are uninterpreted functions of the string with 0 <= size <= min(4, len(s)), size == 0 iff s is empty (then rune == RuneError), rune >= 0", decode("utf8.decodeLast"))
 	reg("unicode/utf8.RuneCountInString", "uninterpreted function with 0 <= n <= len(s)", func(ex *Exec, a []Val, st *State, _ *types.Signature) []Val {
 		s := tm(a[0])
 		n := UF("utf8.runeCount", SInt, s)
